@@ -54,14 +54,37 @@ Definition compressible (ct : bytes) : bool :=
   has_prefix strTextSlash c || has_prefix strApplicationSlash c || has_prefix strImageSVG c
   || has_prefix strImageIcon c || has_prefix strFontSlash c || has_prefix strMultipartSlash c.
 
-(* addVaryBytes(value) on the Vary lines of the response (peek = first line, Set = replace first line) *)
+(* hasHeaderValue(s, value): headerValueScanner cuts at commas (a trailing empty element is not visited),
+   stripSpace removes blanks (0x20 only) at both ends, caseInsensitiveCompare ignores bit 0x20 *)
+Fixpoint strip_left_sp (s : bytes) : bytes :=
+  match s with
+  | c :: r => if c =? SP then strip_left_sp r else s
+  | [] => []
+  end.
+Definition strip_space (s : bytes) : bytes := rev (strip_left_sp (rev (strip_left_sp s))).
+Definition or20 (c : N) : N := N.lor c 32.
+Definition ci_eq (a b : bytes) : bool := beq (map or20 a) (map or20 b).
+Definition hv_elems (b : bytes) : list bytes :=
+  match b with
+  | [] => []
+  | _ => let es := split_comma b in
+         match rev es with
+         | [] :: r => rev r
+         | _ => es
+         end
+  end.
+Definition has_header_value (s value : bytes) : bool :=
+  existsb (fun e => ci_eq (strip_space e) value) (hv_elems s).
+
+(* addVaryBytes(value) on the Vary lines of the response (peek = first line, Set = replace first line);
+   since f11ef83 the existing value is searched per list member *)
 Definition add_vary (lines : list bytes) (value : bytes) : list bytes :=
   match lines with
   | [] => [value]
   | v :: rest =>
       match v with
       | [] => value :: rest
-      | _ => if contains v value then lines else (v ++ COMMA :: value) :: rest
+      | _ => if has_header_value v value then lines else (v ++ COMMA :: value) :: rest
       end
   end.
 
@@ -104,27 +127,29 @@ Section Codec.
     stackless_write k lvl inflight cap dst src.
 
   (* ---- the stackless.Writer path: every operation (Write, Flush, Close) of a pooled stackless writer is one
-     call of the shared stackless function; `full` says whether the queue refuses that call.
-     A refused Write/Flush is reported (errHighLoad); release<Coding>Writer ignores the result of Close. ---- *)
+     call of the shared stackless function; `full` says whether the queue refuses that call.  Since 0c40a4c a
+     refused operation runs inline on the caller's stack (writer.do), so no operation is lost or reported. ---- *)
   Inductive sres := SOk (w : wire) | SErr.
+
+  (* writer.do(op) for an operation whose effect on the coder is `run`: queued or inline, the same effect *)
+  Definition writer_do {A} (full : bool) (run : A) : A := if full then run else run.
 
   (* Write<Coding>Level(w, p, level) for any other io.Writer: acquire (fresh writer), Write, release (Close) *)
   Definition write_generic (k : coding) (lvl : Z) (p : bytes) (full_write full_close : bool) : sres :=
-    if full_write then SErr
-    else SOk (WCoded k (enc k lvl p) (negb full_close)).
+    let written := writer_do full_write p in            (* the coder has consumed p *)
+    let closed := writer_do full_close true in           (* the coder has written its final block and trailer *)
+    SOk (WCoded k (enc k lvl written) closed).
 
   (* compress<Coding>BodyStream: for each chunk read from the body stream: Write, Flush (flushWriter.Write);
      then release (Close).  sched: queue refusals for the successive operations, missing entries = not refused *)
   Definition nth_full (sched : list bool) (i : nat) : bool := nth i sched false.
-  Fixpoint stream_ops_ok (sched : list bool) (i : nat) (chunks : list bytes) : bool :=
+  Fixpoint stream_consumed (sched : list bool) (i : nat) (chunks : list bytes) : bytes :=
     match chunks with
-    | [] => true
-    | _ :: r => negb (nth_full sched i) && negb (nth_full sched (S i)) && stream_ops_ok sched (S (S i)) r
+    | [] => []
+    | c :: r => writer_do (nth_full sched i) c ++ writer_do (nth_full sched (S i)) [] ++ stream_consumed sched (S (S i)) r
     end.
   Definition stream_compress (k : coding) (lvl : Z) (chunks : list bytes) (sched : list bool) : sres :=
-    if stream_ops_ok sched 0 chunks
-    then SOk (WCoded k (enc k lvl (concat chunks)) (negb (nth_full sched (2 * length chunks))))
-    else SErr.
+    SOk (WCoded k (enc k lvl (stream_consumed sched 0 chunks)) (writer_do (nth_full sched (2 * length chunks)) true)).
 
   (* ---- Response.<coding>Body(level) ---- *)
   Record resp := {
